@@ -86,6 +86,8 @@ def trees(draw):
         # includes a submodule whose script raises, handles the exception and
         # carries on
         node['failchild'] = draw(st.integers(0, 3)) == 0
+        # a versioned shared library declared in this script
+        node['vlib'] = draw(st.booleans())
         if not node['dir']:
             # exports are not allowed in the root script
             node['exports'] = {}
@@ -142,6 +144,11 @@ def render_tree(case, src, logfile):
             'inc_' + tag))
         L.append('_log["dirfiles"] = sorted(i.path.suffix for i in '
                  '_hd.files)')
+        if node.get('vlib'):
+            sandbox.write_file(os.path.join(src, d, 'v_' + tag + '.c'),
+                               'int v_{}(void){{return 0;}}\n'.format(tag))
+            L.append("_v = shared_library({!r}, [{!r}], version='1.2.3', "
+                     "soversion='1')".format('vlib_' + tag, 'v_' + tag + '.c'))
         if node['up']:
             L.append('_u = build_step({!r}, cmd=["cp", build_step.input, '
                      'build_step.output], files=[{!r}])'.format(
@@ -323,6 +330,17 @@ def prop_submodules(rec):
                                         'Makefile has {}'.format(
                                             d, dep, sorted(rel.get(out, []))),
                                         case)
+                if node.get('vlib'):
+                    base = posixpath.join(d, 'libvlib_' + tag + '.so')
+                    for name in (base, base + '.1', base + '.1.2.3'):
+                        if 'B:' + name not in rel:
+                            raise Violation(
+                                'sub/paths-versioned-library', 'script {!r} '
+                                'declares a versioned shared library: no rule '
+                                'for {} in the matching build sub-directory; '
+                                'rules: {}'.format(d, name, sorted(
+                                    k for k in rel if 'vlib_' + tag in k)),
+                                case)
                 if node.get('failchild'):
                     if not logs[d].get('caught'):
                         raise Violation('sub/failing-submodule', 'script {!r}:'
